@@ -199,7 +199,9 @@ def generate(rng, prop, tier):
             ops.append({"op": "restart", "acct": rng.randrange(n_acct)})
         elif k == "provision":
             ops.append({"op": "provision", "dev": rng.randrange(len(devices)),
-                        "form": rng.choice(["uri", "json", "dict", "pretty_b32", "pretty_hex", "raw"]),
+                        "form": rng.choice(["uri", "json", "dict", "pretty_b32", "pretty_hex", "raw", "uri_args", "lib_pretty"]),
+                        "direct": rng.random() < 0.4, "sep": rng.choice(["-", " ", False]), "kfmt": rng.choice(["base32", "hex", "base16"]),
+                        "alt_label": rng.choice(["bob@example.org", "Ann Lee", "u/1&x=2", "ü@ö.example"]), "alt_issuer": rng.choice([None, "Example Corp", "a&b=c"]),
                         "deco": rng.choice(["none", "lower", "spaces", "dashes", "pad", "mixed"]),
                         "factory": rng.choice(["stock", "same"])})
         elif k == "hostile":
@@ -232,7 +234,7 @@ def generate(rng, prop, tier):
     return {"cfg": cfg, "ops": ops}
 
 
-HOSTILE_KINDS = ["uri_conflicting_issuer", "uri_duplicate_secret", "uri_duplicate_digits", "uri_missing_secret",
+HOSTILE_KINDS = ["uri_conflicting_issuer", "uri_duplicate_secret", "uri_duplicate_digits", "uri_duplicate_param", "uri_missing_secret",
                  "uri_unknown_type", "uri_bad_digits", "uri_bad_period", "uri_wrong_scheme", "uri_many_colons",
                  "uri_missing_label", "json_missing_v", "json_bad_v", "json_missing_key", "json_unknown_type",
                  "json_truncated", "json_missing_type", "dict_missing_v", "dict_bad_v", "dict_missing_key",
@@ -401,7 +403,7 @@ class _World:
         if d["skew"]:
             self.ctx.fault("device_skew")
         dev = {"cfg": d, "clock": clock, "totp": None, "idx": i}
-        self._provision(dev, d["form"], d["deco"], d["factory"], check=True)
+        self._provision(dev, d["form"], d["deco"], d["factory"], check=True, op=d)
         return dev
 
     # -- C15 / C13: provisioning = serialisation round trip -------------------------------------
@@ -464,7 +466,7 @@ class _World:
                     # the library's own pretty-printer (format x separator) must give something its constructor reads back
                     kf = op.get("kfmt", "base32")
                     k = src.pretty_key(format=kf, sep=op.get("sep", "-"))
-                    fmt = "hex" if kf in ("hex", "base16") else "base32"
+                    fmt = kf  # (the constructor takes the same format names, aliases included)
                 elif form == "pretty_hex":
                     k = src.hex_key
                     if deco in ("lower",):
@@ -551,6 +553,19 @@ class _World:
         ctx.check(tok.valid == bool(rem), "C13", "valid-flag", f"{tok.valid} {rem}")
         seq = tuple(tok)
         ctx.check(seq == (tok.token, (c + 1) * per), "C13", "token-as-sequence", repr(seq))
+        # the validity interval is half-open: at the very instant expire_time (device clock stepped there) the code is over
+        clock = dev["clock"]
+        saved = clock.off
+        try:
+            for delta in (0, -1, 1):
+                clock.off = saved + ((c + 1) * per + delta - (self.T + saved)) if self.T + saved >= 0 else saved
+                now2 = clock()
+                want_rem = max(0, (c + 1) * per - now2)
+                ctx.check(tok.remaining == want_rem and tok.valid == (want_rem > 0), "C13", "validity-interval",
+                          lambda: f"device clock at {now2} (expire_time {(c + 1) * per}{delta:+d}): remaining={tok.remaining} valid={tok.valid}, "
+                                  f"expected remaining={want_rem} valid={want_rem > 0}", boundary=True)
+        finally:
+            clock.off = saved
         if want.startswith("0"):
             ctx.probe("leading_zero_token")
         if a["digits"] == 10:
@@ -873,6 +888,12 @@ class _World:
             src = f"otpauth://totp/joe?secret={b32}&secret={b32}"
         elif kind == "uri_duplicate_digits":
             src = f"otpauth://totp/joe?secret={b32}&digits=6&digits=8"
+        elif kind == "uri_duplicate_param":
+            # every parameter, given twice (the label also counts when it is repeated as a query parameter)
+            name, val = [("label", "mallory"), ("issuer", "Acme"), ("algorithm", "SHA256"), ("period", "30"), ("digits", "6"),
+                         ("secret", b32), ("foo", "1")][op["arg"] % 7]
+            base = f"otpauth://totp/Acme:joe?secret={b32}&issuer=Acme&algorithm=SHA1&period=60&digits=8&foo=0"
+            src = base + f"&{name}={val}"
         elif kind == "uri_missing_secret":
             src = ["otpauth://totp/joe?issuer=x", "otpauth://totp/joe", "otpauth://totp/joe?secret="][op["arg"] % 3]
         elif kind == "uri_unknown_type":
@@ -894,7 +915,7 @@ class _World:
             d.pop("v")
             src = d
         elif kind in ("json_bad_v", "dict_bad_v"):
-            d["v"] = [0, 2, 99, -1][op["arg"] % 4]
+            d["v"] = [0, 2, 99, -1, 1.5, 1.9, "1", "one", [1], 0.5][op["arg"] % 10]  # (unsupported numbers, fractions, non-numbers)
             src = d
         elif kind in ("json_missing_key", "dict_missing_key"):
             d.pop("key")
